@@ -181,18 +181,29 @@ Print Assumptions C11_slice_commutes.
 (* enclosure of the real-valued model by its interval evaluation (paramcoq): Inst/EnclosureC11.v, kept outside this
    file's dependency cone like Inst/Enclosure.v (it loads Coq-Interval, which makes coqchk of the cone very slow) *)
 
-(* --- the sensitivity-derivative term (n_coeffs_deriv / n_coeffs) * ctrlmat_step --- *)
-Theorem C11_sens_term_correct : forall (ncd s : R) (b : Cx), s <> 0 ->
-  sens_term RO ncd s (cscal RO s b) = cscal RO ncd b.
-Proof. exact sens_term_correct. Qed.
-Theorem C11_sens_product_rule : forall (s : R -> R) (b : R -> Cx) u ds db, s u <> 0 ->
+(* --- the sensitivity-derivative term n_coeffs_deriv * ctrlmat_step_unit (fix 26b5723): product rule for EVERY s --- *)
+Theorem C11_sens_product_rule : forall (s : R -> R) (b : R -> Cx) u ds db,
   is_derive s u ds -> cderive b u db ->
-  cderive (fun v => cscal RO (s v) (b v)) u
-          (cadd' (cscal RO (s u) db) (sens_term RO ds (s u) (cscal RO (s u) (b u)))).
+  cderive (fun v => cscal RO (s v) (b v)) u (cadd' (cscal RO (s u) db) (sens_term RO ds (b u))).
 Proof. exact sens_product_rule. Qed.
-(* FINDING (c11-zero-sensitivity-nan): for a zero sensitivity the term is not s' * b (0/0 in floating point) *)
-Theorem C11_sens_term_refuted : exists (ncd : R) (b : Cx), sens_term RO ncd 0 (cscal RO 0 b) <> cscal RO ncd b.
-Proof. exact sens_term_refuted. Qed.
+(* pre-fix (s'/s)*(s*b): the same for s <> 0, wrong for s = 0 (finding c11-zero-sensitivity-nan) *)
+Theorem C11_sens_term_prefix_correct : forall (ncd s : R) (b : Cx), s <> 0 ->
+  sens_term_prefix ncd s (cscal RO s b) = sens_term RO ncd b.
+Proof. exact sens_term_prefix_correct. Qed.
+Theorem C11_sens_term_prefix_refuted : exists (ncd : R) (b : Cx), sens_term_prefix ncd 0 (cscal RO 0 b) <> sens_term RO ncd b.
+Proof. exact sens_term_prefix_refuted. Qed.
+
+(* --- the identity component removed by infidelity() and (fix 49bf6b9) by infidelity_derivative --- *)
+Theorem C11_identity_term_deriv : forall (d G g0 : nat) (tr : Cx) (seg : nat -> Cx) (s : nat -> R -> R) (ds : R) u,
+  (g0 < G)%nat ->
+  (forall g, (g < G)%nat -> is_derive (s g) u (if Nat.eqb g g0 then ds else 0)) ->
+  is_derive (fun v => cabs2 RO (cmul' tr (csumn' G (fun g => cscal RO (s g v) (seg g)))) / IZR (Z.of_nat d)) u
+    (2 * fst (cmul' (cconj' (cmul' tr (csumn' G (fun g => cscal RO (s g u) (seg g)))))
+                    (ident_deriv_entry RO tr ds (seg g0))) / IZR (Z.of_nat d)).
+Proof. exact identity_term_deriv. Qed.
+Theorem C11_ffd_minus_ident_eq : forall (d : nat) FD (id idd : Cx),
+  ffd_minus_ident RO d FD id idd = FD - 2 * fst (cmul' (cconj' id) idd) / IZR (Z.of_nat d).
+Proof. exact ffd_minus_ident_eq. Qed.
 
 (* --- change of the time unit: exact homogeneity of degree 2 with the dimensionless masks (fix 602caf6) --- *)
 Theorem C11_time_scaling : forall lam, 0 < lam -> forall thr_dE thr_x thr_y w ev dt p q m n,
@@ -219,19 +230,21 @@ Theorem C11_ctrlmat_deriv_entry : forall d thr th3 thrA evs Vs Qs omega basis no
   let NTs := noise_NT RO d Vs (nthm nopers a) (nthv ncoeffs a) G in
   let steps := noise_steps RO d G nj no phases BTs (sh_ints RO d thr evs dts omega) NTs in
   let cd := nth h (map (ctrl_data RO d thrA G nj evs Vs Qs dts (sh_X RO d Qs basis G)) copers) ([], []) in
-  let SD := pair_SD RO d G nj no phases BTs (sh_DIs RO d th3 evs dts omega) NTs (fst cd) steps use_ncd
-                    (nth2 [] ncd a h) (nthv ncoeffs a) in
+  let steps_unit := noise_steps RO d G nj no phases BTs (sh_ints RO d thr evs dts omega)
+                                (noise_NT_unit RO d Vs (nthm nopers a) G) in
+  let SD := pair_SD RO d G nj no phases BTs (sh_DIs RO d th3 evs dts omega) NTs (fst cd) steps_unit use_ncd
+                    (nth2 [] ncd a h) in
   nth k (nth o (nth s (nth h (nth a
     (ctrlmat_deriv RO d thr th3 thrA evs Vs Qs omega basis nopers copers ncoeffs dts ts use_ncd ncd) []) []) []) []) 0c
   = assemble_entry RO nj G (fun j => nth3 0c SD s j o) (rget RO (nth s (sh_Ls RO d Qs basis) []))
       (fun g j => nth3 0c steps g j o) (fun t j k' => nth4 0 (snd cd) t s j k') k.
 Proof. exact (ctrlmat_deriv_entry RO). Qed.
-Theorem C11_pair_SD_entry : forall d G nj no phases BTs DIs NTs CBs steps use_ncd ncd_row s_row g j o,
+Theorem C11_pair_SD_entry : forall d G nj no phases BTs DIs NTs CBs steps_unit use_ncd ncd_row g j o,
   (g < G)%nat -> (j < nj)%nat -> (o < no)%nat ->
-  nth3 0c (pair_SD RO d G nj no phases BTs DIs NTs CBs steps use_ncd ncd_row s_row) g j o
+  nth3 0c (pair_SD RO d G nj no phases BTs DIs NTs CBs steps_unit use_ncd ncd_row) g j o
   = let base := step_deriv_entry RO d (nth2 0c phases g o) (nth2 [] BTs g j)
                   (mbuild d d (M_entry RO d (a4get RO (nth2 [] DIs g o)) (nthm CBs g) (nthm NTs g))) in
-    if use_ncd then cadd' base (sens_term RO (vg RO ncd_row g) (vg RO s_row g) (nth3 0c steps g j o))
+    if use_ncd then cadd' base (sens_term RO (vg RO ncd_row g) (nth3 0c steps_unit g j o))
     else base.
 Proof. exact (pair_SD_entry RO). Qed.
 Theorem C11_a4get_deriv_integral : forall d th3 w ev dt p q m n, (p < d)%nat -> (q < d)%nat -> (m < d)%nat -> (n < d)%nat ->
